@@ -12,7 +12,7 @@ HE = ("helpers", "seq")
 NO = ("helpers,node", "seq")
 TR = ("helpers,node,trie", "abstract")
 LK = ("helpers,node,link", "seq")
-FA = ("helpers,node,trie,link,facade", "abstract")
+FA = ("helpers,node,trie,facade", "abstract")
 
 STORAGE_FNS = [
     "MemoryStorage.__len__",
@@ -47,28 +47,35 @@ CHUNKS = [T(HE, "detailed_chunks_iter", 4)]
 ENSURE = [T(TR, "LRUTrie.__ensure_stem_from_siblings", 8)]
 ADD_LRU = [T(TR, "LRUTrie.add_lru", 16, "thorough")]
 STORAGE = [T(ST, f, 2 if f.endswith(".write") else 1) for f in STORAGE_FNS]
+LINK_NODE = [T(LK, "LinkStoreNode." + n) for n in ("has_previous", "previous", "has_target", "target", "set_previous", "set_target", "read")]
+ADD_LINKS = [T(LK, "LinkStore.add_links", 8)]
+WALKS = [T(LK, "LinkStore.weighted_link_nodes_iter", 2)]
+COUNT_LINKS = [T(LK, "LinkStore.count_links")]
+ADD_PAGE = [T(FA, "LRUTrie.add_page", 4)]
+EDITS = [T(FA, "Traph.add_prefix_to_webentity", 4), T(FA, "Traph.remove_prefix_from_webentity", 6), T(FA, "Traph.move_prefix_to_webentity", 6)]
+IDS = [T(FA, "Traph.__generated_web_entity_id"), T(FA, "LRUTrieHeader.__init__")]
 
 DEDUCTIVE = {
-    "C01": node(["is_page", "is_crawled", "flag_as_page", "flag_as_crawled", "unflag_as_page", "unflag_as_crawled"]) + NODE_RW[:2] + ENSURE + ADD_LRU,
+    "C01": node(["is_page", "is_crawled", "flag_as_page", "flag_as_crawled", "unflag_as_page", "unflag_as_crawled"]) + CHUNKS + NODE_RW[:2] + ENSURE + ADD_PAGE + ADD_LRU,
     "C02": STORAGE[2:4] + STORAGE[6:9] + CHUNKS + NODE_RW + node(["stem", "left", "right", "child", "has_left", "has_right", "has_child", "set_left", "set_right", "set_child", "set_parent"]) + ENSURE + ADD_LRU,
-    "C03": node(["has_outlinks", "outlinks", "has_inlinks", "inlinks", "set_outlinks", "set_inlinks"]) + NODE_RW[:2],
-    "C04": node(["has_webentity", "webentity", "set_webentity", "unset_webentity"]) + NODE_RW[:2],
+    "C03": node(["has_outlinks", "outlinks", "has_inlinks", "inlinks", "set_outlinks", "set_inlinks"]) + NODE_RW[:2] + LINK_NODE + ADD_LINKS + WALKS + COUNT_LINKS,
+    "C04": node(["has_webentity", "webentity", "set_webentity", "unset_webentity"]) + NODE_RW[:2] + EDITS,
     "C05": node(["has_webentity", "is_page", "is_crawled", "has_child", "child", "has_left", "has_right"]),
     "C06": node(["has_webentity_creation_rule", "flag_as_webentity_creation_rule", "unflag_as_webentity_creation_rule"]),
-    "C07": node(["has_webentity", "webentity", "has_parent", "parent"]),
-    "C08": node(["has_outlinks", "has_inlinks", "outlinks", "inlinks"]),
+    "C07": node(["has_webentity", "webentity", "has_parent", "parent"]) + LINK_NODE + WALKS,
+    "C08": node(["has_outlinks", "has_inlinks", "outlinks", "inlinks"]) + LINK_NODE + WALKS,
     "C09": [T(HE, "base4_append")],
     "C10": node(["has_outlinks", "outlinks", "is_page"]),
-    "C11": STORAGE,
-    "C12": [],
-    "C13": node(["can_have_child_webentities", "flag_can_have_child_webentities", "has_parent", "parent"]) + ENSURE + ADD_LRU,
+    "C11": STORAGE + IDS[1:],
+    "C12": IDS,
+    "C13": node(["can_have_child_webentities", "flag_can_have_child_webentities", "has_parent", "parent"]) + ENSURE + EDITS + ADD_LRU,
     "C14": [T(ST, f) for f in ("MemoryStorage.read", "FileStorage.read", "MemMapStorage.read", "MemoryStorage.__len__", "FileStorage.__len__", "FileStorage.check_for_corruption")] + [T(NO, "LRUTrieNode.read", 2)] + node(NODE_ACCESSORS),
     "C15": STORAGE + [T(NO, "LRUTrieNode.read", 2)],
-    "C16": NODE_RW[:2],
+    "C16": NODE_RW[:2] + ADD_LINKS,
     "C17": [],
-    "C18": [T(NO, "LRUTrieNode.read", 2), T(NO, "LRUTrieNode.write", 8)] + [T(ST, "FileStorage.check_for_corruption"), T(ST, "FileStorage.read"), T(ST, "FileStorage.write", 2)],
-    "C19": CHUNKS + [T(NO, "LRUTrieNode.write", 8), T(ST, "MemoryStorage.count_blocks"), T(ST, "FileStorage.count_blocks")] + ENSURE + ADD_LRU,
-    "C20": node(["has_inlinks", "inlinks", "is_page"]),
+    "C18": [T(NO, "LRUTrieNode.read", 2), T(NO, "LRUTrieNode.write", 8), T(LK, "LinkStoreNode.read")] + ADD_LINKS + [T(ST, "FileStorage.check_for_corruption"), T(ST, "FileStorage.read"), T(ST, "FileStorage.write", 2)],
+    "C19": CHUNKS + [T(NO, "LRUTrieNode.write", 8), T(ST, "MemoryStorage.count_blocks"), T(ST, "FileStorage.count_blocks")] + ENSURE + ADD_LRU + ADD_LINKS + COUNT_LINKS,
+    "C20": node(["has_inlinks", "inlinks", "is_page"]) + LINK_NODE + WALKS,
 }
 
 # FR-STATE is a premise of every property that relates answers to the history of
@@ -76,15 +83,15 @@ DEDUCTIVE = {
 STATIC = {
     "C01": ["TS", "FR-STATE"],
     "C02": ["FR-STATE"],
-    "C03": ["TS", "FR-STATE"],
+    "C03": ["TS", "FR-STATE", "PRE-STUB:get_page_links,links_iter,links_metrics"],
     "C04": ["TS", "FR-STATE"],
     "C05": ["FR-STATE"],
     "C06": ["FR-RO:get_potential_prefix", "FR-STATE"],
-    "C07": ["FR-STATE"],
-    "C08": ["FR-STATE"],
     "C09": ["FR-STATE"],
-    "C10": ["FR-STATE"],
-    "C20": ["FR-STATE"],
+    "C10": ["FR-STATE", "PRE-STUB:paginate_webentity_pagelinks"],
+    "C20": ["FR-STATE", "PRE-STUB:most_linked"],
+    "C07": ["FR-STATE", "PRE-STUB:get_webentities_links"],
+    "C08": ["FR-STATE", "PRE-STUB:get_webentity_pagelinks_iter,get_webentity_outlinks_iter,get_webentity_inlinks_iter"],
     "C11": ["FR-STATE"],
     "C12": ["FR-ID", "FR-STATE"],
     "C13": ["TS", "FR-STATE"],
